@@ -110,6 +110,7 @@ def model_pass(run, a):
     o.enum_arrays = True
     o.struct_arrays = True
     o.narrow_counts = False
+    o.array_modifier = True
     n = 25 if a.tier == "quick" else 150
     be = B.Backend(run, "cxx", a.tier, a.seed + 7, n, tag="cxxm", opts=o)
     be.generate(stratify=False)
